@@ -18,7 +18,7 @@ VARIANTS = [
     "two logins (user / handler)",
     "mixed recv()/read() stretch",
     "two Connections concurrently, with keep-alives during the writes",
-    "wrapper level with EAGAIN",
+    "wrapper level with EAGAIN", "zero-length recv()/read() mid-stream",
     "online-mode login with scripted session service",
     "second thread holding the write lock during login",
     "application answer queued while the encryption response goes out"
@@ -351,6 +351,15 @@ def wrapper_scenario(rng):
     n_sends = sum(1 for o in ops if o[0] == 'send')
     eagain = [rng.randrange(n_sends)] if n_sends and rng.random() < 0.25 \
         else []
+    zr = rng.random()
+    if zr < 0.3:
+        # zero-length reads in the middle of the live stream (legal, and
+        # what a caller gets to make when a length field says 0): they
+        # return nothing and change nothing
+        for _ in range(1 if zr < 0.2 else 3):
+            ops.insert(int(zr * 1e6) % (len(ops) + 1),
+                       [['recv', 'read'][int(zr * 1e7) % 2], 0])
+            zr = (zr * 7.3) % 0.3
     return {
         'kind': 'wrapper', 'secret_hex': secret.hex(),
         'plain_in_hex': plain_in.hex(), 'ops': ops,
